@@ -39,6 +39,10 @@ RULES = {
                                     {"s": 0, "op": "min", "e": "y", "signed": False, "extra": []},
                                     {"s": 0, "op": "eval", "e": "y", "n": 1, "extra": []},
                                     {"s": 0, "op": "min", "e": "y", "signed": False, "extra": []}],
+    "cached-model-without-a-variable": [A("Or(b, y == 0)"), {"s": 0, "op": "satisfiable", "extra": []},
+                                        {"s": 0, "op": "eval", "e": "If(b, y, y + 1)", "n": 20, "extra": []},
+                                        {"s": 0, "op": "min", "e": "If(b, y, y + 1)", "signed": False, "extra": []},
+                                        {"s": 0, "op": "max", "e": "If(b, y, y + 1)", "signed": True, "extra": []}],
     "solution-on-unsat": [A("ZeroExt(1, y) == x + 1"), A("x == 7"), {"s": 0, "op": "solution", "e": "x", "v": 3, "extra": []},
                           {"s": 0, "op": "satisfiable", "extra": []}],
     "trivial-model-fast-path": [A("x == 5"), {"s": 0, "op": "eval", "e": "x", "n": 5, "extra": []},
